@@ -62,6 +62,7 @@ mod kv {
             left += 1;
         }
         assert!(left == (N - j - 1) as usize, "[KV] the iterator does not yield exactly the remaining elements");
+        kani::cover!(true, "reach: end of harness");
         core::mem::forget(t);
     }
 
@@ -95,6 +96,7 @@ mod kv {
             n += 1;
         }
         assert!(!yields_v && n == (N - 1) as usize, "[KV] hashbrown's reflect_insert now restores the next-to-yield bucket: the model's transliteration is out of date");
+        kani::cover!(true, "reach: end of harness");
         core::mem::forget(t);
     }
 
@@ -116,6 +118,7 @@ mod kv {
         if keep {
             assert!(t.capacity() == cap, "[KV] replace_bucket_with(Some) changed capacity()");
         }
+        kani::cover!(true, "reach: end of harness");
         core::mem::forget(t);
     }
 
@@ -131,6 +134,7 @@ mod kv {
         assert!(t.buckets() == want_buckets, "[KV] capacity_to_buckets differs from the extracted text");
         let want_cap = if want_buckets < 9 { want_buckets - 1 } else { want_buckets / 8 * 7 };
         assert!(t.capacity() == want_cap, "[KV] bucket_mask_to_capacity differs from the extracted text");
+        kani::cover!(true, "reach: end of harness");
         core::mem::forget(t);
     }
 }
